@@ -69,9 +69,8 @@ CLAIMED.update({
             "pixel of the request (C04 cover theorems + C10 alpha-less fetch + C08 bilinear lanes; float lerp over Rat), flagged "
             "linear/conical gradients have alpha exactly 1 everywhere (via C13's composition theorem), and the looked-up operator "
             "computes the requested operator for every Porter-Duff/ADD operator (presentation invariance for source, mask, "
-            "destination); the BILINEAR->NEAREST reduction and radial gradients (flagged only under affine transforms since a7be4c7, "
-            "every pixel painted with alpha 1 via C13) are covered. Partial: float fetch model only as the lerp theorem over Rat; "
-            "headline theorems for the 8-bit pipeline; alpha maps, clips, accessors, "
+            "destination). Partial: a BILINEAR filter promoted through NEAREST_OPAQUE alone (integer translations); radial 'a < 0 => "
+            "every pixel has a root'; float fetch model; headline theorems for the 8-bit pipeline; alpha maps, clips, accessors, "
             "separable convolution excluded from the paired streams.",
             TECH, "DESIGN.md 6/C09"),
     "C11": ("proof",
@@ -97,11 +96,8 @@ CLAIMED.update({
             "intersection). Frame theorems at model level (Props/C03Frame): the general path's write-back (C10 scanline stores over "
             "the boxes of R), incl. the alpha-map store, fill_boxes/fill_rectangles on every route (C19), glyph drawing (C17Draw) and "
             "mask-route trapezoids change no bit outside the pixels of R (sub-byte neighbours, row padding, other rows) for every "
-            "1/4/8/16/24/32-bpp format. Direct trapezoid rasterisation is framed unconditionally (any coordinates, edge state, depth: rows within the "
-            "clamped sample-row range, columns inside the image, carried to destination bytes through C10 pixel stores), and the "
-            "general path's box loop + write-back model is compared byte for byte with the library on 1/4/8/16/24/32-bpp destinations "
-            "with multi-rectangle clips (`drawframe` domain). Partial: the fast-path/SIMD composite bodies are outside every model "
-            "(canary oracle under each chain only); C12's row bodies are abstracted to per-pixel updates; the 16-bit wrapper is correspondence/oracle only (known finding: coordinates > 32767). The "
+            "1/4/8/16/24/32-bpp format. Partial: the fast-path/SIMD composite bodies are outside every model (canary oracle under "
+            "each chain only); direct trapezoid rasterisation is framed on C12's pixel array (row/column containment: C04 S8); the 16-bit wrapper is correspondence/oracle only (known finding: coordinates > 32767). The "
             "theorems' hypothesis RangeOK = no int overflow AND every consulted clip canonical; requests with a hand-built non-canonical "
             "clip (unreachable through the region API) are compared with the model only, not with the point oracle.",
             TECH, "DESIGN.md 6/C03"),
@@ -198,12 +194,8 @@ CLAIMED.update({
             "values: every phase sums to exactly 65536, nothing outside the block is written, the tables tile [4,n_values); constant "
             "images stay constant for 255*w*h < 65536; all 8x8 kernel pairs x scales x subsample bits 0..8 replayed through model and "
             "library incl. canary cells behind the block, table oracle, ASan/UBSan run.",
-            TB + "For the polynomial kernels (IMPULSE, BOX, LINEAR, CUBIC) the sampling is modelled over exact rationals (the 12-segment "
-            "Simpson rule, LINEAR splits, IMPULSE cases, positions, normalisation with error diffusion: Props/C18K: kernel/phase "
-            "symmetry, closed forms, non-negativity, exact total 65536) and every double reaching floor() must lie within 64 units of "
-            "2^-37 of the exact value (measured max 11). Partial: GAUSSIAN and the LANCZOS kernels (exp/sin) remain observed through "
-            "the floor/ceil-hooked recompilation of pixman-filter.c and fed to the model; W1 assumes no int32 wrap of the running "
-            "total (measured). Known finding T: tables "
+            TB + "Partial: the double-precision sampling/normalisation is observed (floor/ceil-hooked recompilation of pixman-filter.c) "
+            "and fed to the model, not modelled; W1 assumes no int32 wrap of the running total (measured). Known finding T: tables "
             "with >= 258 taps do not keep a constant image constant (products rounded before accumulation).", TECH, "DESIGN.md 6/C18"),
     "C20": ("proof",
             "Heap model with explicit per-block free counters, ghost client references, destroy callbacks, alpha-map exchange, setters "
@@ -239,14 +231,8 @@ CLAIMED.update({
             "bits for 1/4/8/16/24/32 bpp, scanline = map of pixel fetch, indexed formats through a palette — for all pixel values; "
             "exhaustive <=16 bpp values at every word phase, edge/random 24/32/10-bit, direct vs accessor-callback images on both "
             "chains against the model and an independent bit-stream oracle.",
-            TB + "Float paths: an exact binary32 model (round-to-nearest-even, the rounded reciprocal and the rounded product of "
-            "pixman_unorm_to_float, the literal pixman_float_to_unorm) gives float_roundtrip for every width <= 11 bits (and a proved "
-            "counterexample from 12 bits on, where the library behaves identically and no pixel format has such a channel), exact "
-            "ends, strict monotonicity, closeness to u/(2^n-1), the packed 10-bit and sRGB store/fetch identities; the library's "
-            "float bit patterns must EQUAL the model's (incl. direct calls of pixman_unorm_to_float / float_to_unorm for all widths "
-            "1..16 and all levels). Partial: roundNE is a definition tied to the hardware by that bit-exact correspondence, not "
-            "proved against an abstract IEEE specification; NaN/inf inputs not modelled; accessor equivalence by correspondence; "
-            "YUV fetch modelled (yuy2, yv12), accessor-variant selection regenerated.", TECH, "DESIGN.md 6/C10"),
+            TB + "Partial: float paths (10-bit, sRGB, float formats) are proved over exact rationals (IEEE rounding of unorm_to_float not "
+            "modelled, *_partial); accessor equivalence and yuy2 by correspondence only; yv12 excluded.", TECH, "DESIGN.md 6/C10"),
     "C19": ("proof",
             "Model of pixman_fill1_line / fill1/8/16/32 / fast_path_fill, sse2/mmx fill and blt as address-range programs, the "
             "delegation chain, color_to_pixel and pixman_image_fill_boxes/rectangles (region algebra from C05, pixel model from C01): "
